@@ -1,4 +1,5 @@
 import Poupool.Properties.C01
+import Poupool.Model.Winter
 /-!
 # C13  Counter-current pump runs only while the pool is open, or in wintering
 * `swim_relay_only_in_running_phases`: the relay is energised only in Swim's `timed`, `continuous`, `wintering_stir`.
@@ -57,5 +58,46 @@ theorem swim_guard_allows_wintering :
 theorem swim_guard_open_modes_partial :
     (swimAllowedLeaves.filter fun l => !(l == Filtration.leaf_wintering_waiting || l == Filtration.leaf_wintering_stir))
       = [Filtration.leaf_standby_normal, Filtration.leaf_overflow_normal, Filtration.leaf_comfort] := by decide +kernel
+
+/-! ## timed mode stops by itself (Model/Winter.lean: util.Timer as used by Swim.do_repeat_timed) -/
+open Poupool.Winter
+
+/-- after any sequence of polls the accumulated time is exactly (last poll − first poll): nothing is lost or counted twice -/
+theorem timed_accumulates (t0 : Int) (ts : List Int) :
+    (runPolls (t0 :: ts)).dur = (ts.getLastD t0) - t0 ∧ (runPolls (t0 :: ts)).last = some (ts.getLastD t0) := by
+  unfold runPolls
+  simp only [List.foldl_cons, Timer.update]
+  have gen : ∀ (ts : List Int) (d l : Int),
+      (ts.foldl Timer.update { dur := d, last := some l }).dur = d + (ts.getLastD l - l) ∧
+      (ts.foldl Timer.update { dur := d, last := some l }).last = some (ts.getLastD l) := by
+    intro ts
+    induction ts with
+    | nil => intro d l; simp
+    | cons x xs ih =>
+        intro d l
+        simp only [List.foldl_cons, Timer.update]
+        obtain ⟨h1, h2⟩ := ih (d + (x - l)) x
+        refine ⟨?_, ?_⟩
+        · rw [h1]
+          cases xs with
+          | nil => simp only [List.getLastD_nil, List.getLastD_cons]; omega
+          | cons y ys => simp only [List.getLastD_cons]; omega
+        · rw [h2]
+          cases xs with
+          | nil => simp only [List.getLastD_nil, List.getLastD_cons]
+          | cons y ys => simp only [List.getLastD_cons]
+  obtain ⟨h1, h2⟩ := gen ts 0 t0
+  exact ⟨by rw [h1]; omega, h2⟩
+
+/-- hence the poll that comes `delay` after the first one requests `halt` (polls are 1 s apart: C08.other_timeouts) -/
+theorem timed_stops (t0 delay : Int) (ts : List Int) (now : Int) (h : now - t0 ≥ delay) :
+    (timedPoll (runPolls (t0 :: ts)) delay now).1 = .halt := by
+  obtain ⟨hd, hl⟩ := timed_accumulates t0 ts
+  simp only [timedPoll, Timer.update, hl]
+  rw [if_pos]
+  simp only [hd]
+  omega
+
+example : (timedPoll (runPolls [0, 1000000, 2000000]) 3000000 3000000).1 = .halt := by decide
 
 end Poupool.C13
